@@ -309,7 +309,7 @@ func VerifH_C19_TimeFields() {
 	days := c19SampleDays[verifChoose(verifParam("DAYS", 3))]
 	var sod int64
 	if verifParam("ALLSECONDS", 0) == 1 {
-		sod = int64(verifChoose(86400))
+		sod = int64(verifChoose(24))*3600 + int64(verifChoose(3600)) // (one choice is limited to 32767 alternatives)
 	} else if verifChoose(2) == 0 {
 		sod = int64(verifChoose(1440)) * 60
 	} else {
